@@ -5,7 +5,7 @@ Descriptor (shared with spec/DxBounds.tla):
        tb: LS, variants:[{shape, dmark, vb: LS, fields:[{ty: TypeExpr, b: LS, cmp, dbg, dval}]}]}
   LS = {"h": {attr: BoundOpt for the 7 helper attributes}, "this": BoundOpt, "common": BoundOpt}
 """
-import copy, itertools, json
+import re, copy, itertools, json
 import dxlib as dx
 import cmpfam as cf
 
@@ -106,7 +106,7 @@ def bound_src(P, b, level_id):
     pred = "%s: M_%s" % (tp, lid(level_id))
     ty = "W_%s<%s>" % (lid(level_id), tp)
     return {"absent": None, "empty": "bound()", "P": "bound(%s)" % pred, "dd": "bound(..)", "Pdd": "bound(%s, ..)" % pred,
-            "T": "bound(%s)" % ty, "Tdd": "bound(%s, ..)" % ty}[b]
+            "T": "bound(%s)" % ty, "Tdd": "bound(%s, ..)" % ty, "ddP": "bound(.., %s)" % pred, "ddT": "bound(.., %s)" % ty}[b]
 
 
 def cmp_args(o, a):
@@ -364,8 +364,9 @@ def observe_where(Ps, amap, entries=("attr", "derive")):
                 tags = []
                 for a in it["where"]:
                     # the name of the bound lifetime of a higher-ranked bound is immaterial (alpha-equivalence)
-                    if a.startswith("for < '__a >"):
-                        a = a.replace("'__a", "'a")
+                    hm = re.match(r"^for < ('[A-Za-z_][A-Za-z0-9_]*) >", a)
+                    if hm and hm.group(1) != "'a":
+                        a = re.sub(re.escape(hm.group(1)) + r"(?![A-Za-z0-9_])", "'a", a)
                     # an atom text may stand for several tags only if two levels render identically - they never do,
                     # except a field type that coincides with the type parameter of a marker predicate (never)
                     ts = rev.get(a, ["unknown:" + a])
